@@ -542,7 +542,10 @@ func (c *Ctx) subObject(ref string, owner types.Type, prefix string, f *types.Va
 	if _, named := ft.(*types.Named); named {
 		fn := "sub!" + mangle(typeName(owner)+"."+prefix+f.Name())
 		c.declFun(fn, []Sort{"Int"}, "Int")
-		c.decl("ax:"+fn, fmt.Sprintf("(assert (forall ((r Int)) (! (=> (> r 0) (> (%s r) 0)) :pattern ((%s r)))))", fn, fn))
+		c.decl("const:alloc!0", "(declare-const alloc!0 Int)")
+		c.decl("assert:alloc!0", "(assert (> alloc!0 0))")
+		// sub-objects are non-nil, and belong to the same generation (allocated before / after entry) as their owner
+		c.decl("ax:"+fn, fmt.Sprintf("(assert (forall ((r Int)) (! (and (=> (> r 0) (> (%s r) 0)) (= (>= r alloc!0) (>= (%s r) alloc!0))) :pattern ((%s r)))))", fn, fn, fn))
 		return "(" + fn + " " + ref + ")", ft, ""
 	}
 	return ref, owner, prefix + f.Name() + "."
@@ -622,9 +625,9 @@ func (c *Ctx) cursorOf(st *State, e ast.Expr) cursor {
 // derefCursor: if the cursor holds a pointer value, dereference it (with a nil obligation).
 func (c *Ctx) derefCursor(st *State, cur cursor, t types.Type, at ast.Node) (cursor, types.Type) {
 	if cur.isRef {
-		if p, ok := t.Underlying().(*types.Pointer); ok {
-			// a pointer-typed field was stepped into: cur.val holds it
-			_ = p
+		if cur.prefix != "" {
+			// inside a flattened anonymous struct: t is that struct's type
+			return cur, t
 		}
 		return cur, cur.owner
 	}
@@ -703,6 +706,15 @@ func (c *Ctx) addressOf(st *State, x *ast.UnaryExpr) Val {
 	t := c.typeOf(x)
 	switch y := unparen(x.X).(type) {
 	case *ast.CompositeLit:
+		if lt := c.typeOf(y); lt != nil {
+			if _, isStruct := lt.Underlying().(*types.Struct); !isStruct {
+				// &T{...} for a slice / map type: a fresh cell holding the value
+				v := c.evalComposite(st, y, false)
+				ref := c.alloc(st)
+				c.cellWrite(st, ref, lt, v)
+				return Val{T: ref, S: "Int", GT: t}
+			}
+		}
 		return c.evalComposite(st, y, true)
 	case *ast.Ident:
 		if o, ok := c.info.ObjectOf(y).(*types.Var); ok {
